@@ -2090,3 +2090,45 @@ func HarnessExportImport() {
 		}
 	}
 }
+
+// ---------- C02: declared names, for symbolic names ----------
+
+// One property whose name is drawn symbolically (lower-case first letter, then
+// letters and digits incl. runs of capitals): JSON name is the declared name,
+// proto name is its snake_case form.
+func HarnessFieldNames() {
+	n := ndIntRange("len", 1, verifParam("L", 4))
+	b := make([]byte, n)
+	for i := range b {
+		c := ndByte("c")
+		if i == 0 {
+			verifAssume(c >= 'a')
+			verifAssume(c <= 'z')
+		} else {
+			verifAssume(verifAny(verifAll(c >= 'a', c <= 'z'), verifAll(c >= 'A', c <= 'Z'), verifAll(c >= '0', c <= '9')))
+		}
+		b[i] = c
+	}
+	name := string(b)
+	inOneof := ndBool("inOneof")
+	props := []*schema_j5pb.ObjectProperty{{Name: name, Schema: verifField(fString)}}
+	var src *sourcedef_j5pb.SourceFile
+	if inOneof {
+		src = verifSourceFile(verifOneofElement("Thing", props))
+	} else {
+		src = verifSourceFile(verifObjectElement("Thing", props))
+	}
+	files, err := ConvertJ5File(verifDeps{}, src)
+	verifAssert(err == nil && len(files) == 1, "accepted")
+	if err != nil || len(files) != 1 {
+		return
+	}
+	msg := verifFindMessage(files[0], "Thing")
+	verifAssert(msg != nil && len(msg.Field) == 1, "one-field")
+	if msg == nil || len(msg.Field) != 1 {
+		return
+	}
+	f := msg.Field[0]
+	verifAssert(f.GetJsonName() == name, "json-name-is-the-declared-name")
+	verifAssert(f.GetName() == strcase.ToSnake(name), "proto-name-is-snake-case-of-the-declared-name")
+}
